@@ -848,6 +848,33 @@ Lemma rejected_changes_nothing t cmd prefix e :
   execute (mk_handler prefix (fst (add t cmd))) e = execute (mk_handler prefix t) e.
 Proof. intros Hb. apply add_rejects in Hb as [err ->]. reflexivity. Qed.
 
+(* ---- sequences of messages ------------------------------------------------ *)
+
+Lemma execute_seq_nth h es i :
+  nth_error (execute_seq h es) i = option_map (execute h) (nth_error es i).
+Proof.
+  unfold execute_seq. revert i; induction es as [|e es IH]; intros [|i]; simpl; auto.
+Qed.
+
+Lemma execute_seq_length h es : length (execute_seq h es) = length es.
+Proof. unfold execute_seq. apply map_length. Qed.
+
+(* the i-th message of a sequence is treated as if it were alone: C18_invoke and
+   C18_nothing_else hold message by message *)
+Lemma execute_seq_invoke_iff h es i c args raw :
+  nth_error (execute_seq h es) i = Some (Invoke c args raw) <->
+  exists e src n, nth_error es i = Some e /\ ev_source e = Some src /\ ev_command e = PRIVMSG /\
+    addresses (h_prefix h) (last_param e) n raw /\ n <> help_name /\
+    tbl_get n (h_cmds h) = Some c /\ args_split raw args /\
+    (c_minargs c <= Z.of_nat (length args))%Z.
+Proof.
+  rewrite execute_seq_nth. split.
+  - destruct (nth_error es i) as [e|]; [|discriminate]. cbn [option_map]. intros [= H].
+    apply invoke_only_addressed in H as (src & n & H). exists e, src, n. tauto.
+  - intros (e & src & n & -> & Hs & Hc & Ha & Hh & Hg & Hsp & Hz). cbn [option_map]. f_equal.
+    now apply (invoke_addressed h e src n raw c args).
+Qed.
+
 (* ---- examples: the hypotheses are satisfiable -------------------------- *)
 
 Definition ex_prefix : str := Eval vm_compute in bs "$^".
